@@ -6,7 +6,7 @@
    freshly built binary into Gen/GenScript.v on every run (cvscript_n_commands/cvscript_command_names/
    cvscript_command_n_args_min/max); the object class of a command is the prefix of its function name
    (colvarscript::get_cmd_prefix).   Definitions only. *)
-From Coq Require Import ZArith List Bool String Ascii.
+From Coq Require Import ZArith List Bool String Ascii DecimalString.
 Import ListNotations.
 Local Open Scope string_scope.
 Local Open Scope Z_scope.
@@ -120,37 +120,46 @@ Definition witness_words (k : objkind) (sub name : string) (e : cmd_entry) : lis
 (* ---- the part of the module state the dispatcher depends on, and what commands do to it ---- *)
 Record mstate := mk_state {
   st_cvs : list string;                        (* names of the variables, in creation order *)
-  st_biases : list (string * list string) }.   (* biases: name, names of the variables it uses *)
+  st_biases : list (string * list string);     (* biases: name, names of the variables it uses *)
+  st_nharm : nat }.                            (* how many harmonic blocks were ever read (colvarmodule::num_biases_types_used_):
+                                                  it never goes down when a bias is deleted, only `reset` clears it *)
 
 Definition bias_names (st : mstate) : list string := map fst (st_biases st).
 
-Inductive decl := DCv (n : string) | DBias (n : string) (cs : list string).
+(* a block with or without an explicit `name` *)
+Inductive decl := DCv (n : option string) | DBias (n : option string) (cs : list string).
+
+Definition dec (n : nat) : string := NilZero.string_of_uint (Nat.to_uint n).
+(* default names: colvar::init uses the number of variables including the new one; colvarbias::init uses <type><rank>, the rank being
+   the per-type counter of parse_biases_type after it was incremented for this block *)
+Definition default_cv_name (st : mstate) : string := "colvar" ++ dec (S (List.length (st_cvs st))).
+Definition default_bias_name (rank : nat) : string := "harmonic" ++ dec rank.
 
 (* colvar::~colvar: biases that use the variable are deleted with it *)
 Definition del_cv (n : string) (st : mstate) : mstate :=
   mk_state (filter (fun c => negb (String.eqb c n)) (st_cvs st))
-           (filter (fun b => negb (mem_str n (snd b))) (st_biases st)).
+           (filter (fun b => negb (mem_str n (snd b))) (st_biases st)) (st_nharm st).
 Definition del_bias (n : string) (st : mstate) : mstate :=
-  mk_state (st_cvs st) (filter (fun b => negb (String.eqb (fst b) n)) (st_biases st)).
+  mk_state (st_cvs st) (filter (fun b => negb (String.eqb (fst b) n)) (st_biases st)) (st_nharm st).
 
-(* one "colvar { name n ...}" / "<bias> { name n  colvars cs ...}" block: refused when the name is taken or
-   a variable is missing (colvar::init, colvarbias::init + colvarmodule::check_new_bias) *)
-Definition add_decl (st : mstate) (d : decl) : option mstate :=
+(* one "colvar { [name n] ...}" / "harmonic { [name n]  colvars cs ...}" block: refused when the name is taken or a variable is
+   missing (colvar::init, colvarbias::init + colvarmodule::check_new_bias); a refused bias block still uses up a rank *)
+Definition add_decl (st : mstate) (d : decl) : mstate * bool :=
   match d with
-  | DCv n => if mem_str n (st_cvs st) then None else Some (mk_state (st_cvs st ++ [n]) (st_biases st))
-  | DBias n cs => if mem_str n (bias_names st) then None
-                  else if forallb (fun c => mem_str c (st_cvs st)) cs
-                       then Some (mk_state (st_cvs st) (st_biases st ++ [(n, cs)]))
-                       else None
+  | DCv on => let n := match on with Some n => n | None => default_cv_name st end in
+              if mem_str n (st_cvs st) then (st, false) else (mk_state (st_cvs st ++ [n]) (st_biases st) (st_nharm st), true)
+  | DBias on cs => let rank := S (st_nharm st) in
+                   let n := match on with Some n => n | None => default_bias_name rank end in
+                   if mem_str n (bias_names st) then (mk_state (st_cvs st) (st_biases st) rank, false)
+                   else if forallb (fun c => mem_str c (st_cvs st)) cs
+                        then (mk_state (st_cvs st) (st_biases st ++ [(n, cs)]) rank, true)
+                        else (mk_state (st_cvs st) (st_biases st) rank, false)
   end.
 (* colvarmodule::parse_config: blocks in order, stop at the first that fails; what was added stays *)
 Fixpoint add_decls (st : mstate) (ds : list decl) : mstate * bool :=
   match ds with
   | [] => (st, true)
-  | d :: r => match add_decl st d with
-              | None => (st, false)
-              | Some st' => add_decls st' r
-              end
+  | d :: r => let (st', ok) := add_decl st d in if ok then add_decls st' r else (st', false)
   end.
 
 (* result class of a body: ok / error / not modelled *)
@@ -175,7 +184,7 @@ Section Exec.
     let n := e_name e in
     if String.eqb n "colvar_delete" then (del_cv (nth 2 words "") st, BOk)
     else if String.eqb n "bias_delete" then (del_bias (nth 2 words "") st, BOk)
-    else if String.eqb n "cv_reset" then (mk_state [] [], BOk)
+    else if String.eqb n "cv_reset" then (mk_state [] [] 0, BOk)
     else if String.eqb n "cv_config" then apply_conf st (nth 2 words "")
     else if String.eqb n "cv_configfile" then
       match read_file (nth 2 words "") with
